@@ -210,7 +210,7 @@ def run(ctx):
             if bad:
                 res.violations.append({"what": bad, "input": {"configuration": "same arguments twice in one process", "cache_objects": cache}, "kf": None})
         # ---- two views on one internal directory ----
-        for vi in range(6 if thorough else 2):
+        for vi in range(8 if thorough else 4):
             root = os.path.join(base, "v%d" % vi)
             os.makedirs(root)
             wk = pipeline.WorkerProc("real", cwd=root)
@@ -218,16 +218,18 @@ def run(ctx):
                 wk.call(cmd="world", dir=ws, module="c16w", extmod="c16e")
                 # (every second time with directory names that are string prefixes of one another)
                 nint, na, nb = ("/int", "/dataA", "/dataB") if vi % 2 else ("/pipeline_cache", "/pipeline", "/pipeline_staging")
+                # (every view is used through dds.eval and through a top-level dds.keep of the same function)
+                ventry = entry if vi % 4 < 2 else {"kind": "keep", "fun": entry["fun"], "path": "/views/top"}
                 try:
                     wk.call(cmd="store_api", internal_dir=root + nint, data_dir=root + na, cache_objects=None)
-                    ra = wk.call(cmd="run", entry=entry)
+                    ra = wk.call(cmd="run", entry=ventry)
                     wk.call(cmd="store_api", internal_dir=root + nint, data_dir=root + nb, cache_objects=None)
                 except RuntimeError as e:
                     res.violations.append({"what": "a data view cannot be configured: " + str(e).strip().splitlines()[-1][:300],
                                            "input": {"views": [nint, na, nb]}, "kf": None})
                     continue
                 missing = [p for p in want_paths if wk.call(cmd="load", path=p)["error"] is None]
-                rb = wk.call(cmd="run", entry=entry)
+                rb = wk.call(cmd="run", entry=ventry)
                 res.evaluations += 2
                 res.nontrivial("views %d" % vi)
                 bad = None
